@@ -142,6 +142,16 @@ def main(argv=None):
     seed = int(os.environ.get("VERIF_SEED", "0"))
     jobs = int(os.environ.get("VERIF_JOBS", str(os.cpu_count() or 4)))
     t0 = time.time()
+    if tier == "thorough":
+        # larger solver and task budgets: a verdict must not flip to "undecided" because the machine is busy
+        global TASK_TIMEOUT_S
+        from . import explore as _explore
+        if "PYVC_Z3_TIMEOUT_MS" not in os.environ:
+            _explore.Z3_TIMEOUT_MS = 120000
+        if "PYVC_CVC5_TIMEOUT_S" not in os.environ:
+            _explore.CVC5_TIMEOUT_S = 180
+        if "PYVC_TASK_TIMEOUT_S" not in os.environ:
+            TASK_TIMEOUT_S = 5400
 
     import amaranth
     repo = os.environ.get("VERIF_REPO", "/repo")
